@@ -947,6 +947,10 @@ func (e *boundsEngine) indexOK(base, idx ssa.Value, at *ssa.BasicBlock) (bool, s
 			return true, why
 		}
 	}
+	// a counter and a list kept in two fields of one helper object
+	if ok, why := e.fieldCursorIndexOK(base, idx, at); ok {
+		return true, why
+	}
 	return false, fmt.Sprintf("index in %s, need [0, len(%s)-1]", b, L.Name())
 }
 
@@ -991,6 +995,13 @@ func (w *World) indexFnInTable(f *ssa.Function, base ssa.Value) (bool, string) {
 	// every return of f is a field of the result-type struct
 	for _, b := range f.Blocks {
 		if ret, ok := normalReturn(b); ok {
+			// or an entry of a read-only package table of codes
+			if mx, ok := w.roTableMaxInt(ret.Results[0]); ok {
+				if mx > max {
+					max = mx
+				}
+				continue
+			}
 			ld, ok := ret.Results[0].(*ssa.UnOp)
 			if !ok {
 				return false, "index function returns a computed value"
@@ -1529,4 +1540,49 @@ func stringNonEmptyAt(s ssa.Value, blk *ssa.BasicBlock) bool {
 		}
 	}
 	return false
+}
+
+// roTableMaxInt: v is read out of a package-level map nothing writes after
+// initialisation and all of whose values are non-negative integer constants;
+// returns the largest of them.
+func (w *World) roTableMaxInt(v ssa.Value) (int64, bool) {
+	if ex, ok := v.(*ssa.Extract); ok && ex.Index == 0 {
+		v = ex.Tuple
+	}
+	lk, ok := v.(*ssa.Lookup)
+	if !ok {
+		return 0, false
+	}
+	ld, ok := lk.X.(*ssa.UnOp)
+	if !ok || ld.Op != token.MUL {
+		return 0, false
+	}
+	g, ok := ld.X.(*ssa.Global)
+	if !ok || !w.readOnlyGlobal(g) {
+		return 0, false
+	}
+	st := w.initState()
+	gobj, ok := st.globals[g]
+	if !ok {
+		return 0, false
+	}
+	mv := st.obj(gobj).Fields[0]
+	if mv.Kind != avPtr {
+		return 0, false
+	}
+	mo := st.obj(mv.Obj)
+	if !mo.IsMap || mo.Opaque || len(mo.Map) == 0 {
+		return 0, false
+	}
+	max := int64(0) // the zero value of a missing key
+	for _, e := range mo.Map {
+		k, ok := e.Int()
+		if !ok || k < 0 {
+			return 0, false
+		}
+		if k > max {
+			max = k
+		}
+	}
+	return max, true
 }
